@@ -265,6 +265,10 @@ def run(ctx):
             def sub(v, x=x):
                 if v[0] in ("proj", "param") and any(n.startswith("[") for n in v[-1]) and expr.mentions(v, lambda n: n[0] == "call" and n[1].endswith("::chunk")):
                     return x
+                # `buf.chunk().first()` / `.get(0)`: the payload of the Some is that same byte
+                if v[0] == "proj" and tuple(v[2]) == ("<Some>", ".0") and v[1][0] == "call" and v[1][2] and v[1][2][0][0] == "call" and v[1][2][0][1].endswith("::chunk") and \
+                        (v[1][1] == "[T]::first" or (v[1][1] == "[T]::get" and len(v[1][2]) == 2 and expr.fold(v[1][2][1], consts) == 0)):
+                    return x
                 return None
             okp = [p for p in expr.decide(alld, consts, sub) if not p.ret_shape().startswith("Err(ParseError::InvalidPrefix")]
             acc = any(not p.ret_shape().startswith("Err") or p.ret_shape().startswith("Residual") for p in okp)
